@@ -75,6 +75,48 @@ EXPLANATION = ("Model: Model/Reveal.v (reveal_plates, mask_screen, unmask_screen
                "(harness/py2gal.py, Generated/SrcReveal.v; Screen(...) = the model's constructor on the keyword arguments the call site "
                "passes): C03_model_is_source_step / _lifecycle, C03_source_variant_unique, C03_ids_frozen_of_source.  Trusted: the translator "
                "and the primitives listed in C12's explanation.")
+# ---- the prediction clause (gap review g1, C03 gap 1) ----
+THEOREMS.update({
+    "C03_predict_stable": "the clause 'identical predictions for the same experiments on every later stage': for any posterior sample of either shipped sample type, "
+                          "any of mean / viability / variance and every oracle, two screens frozen to one parent predict the same number for row i of one and row j "
+                          "of the other whenever the rows are the same experiment (same sample name, same (treatment, dose) in every column) - frozen ids composed with C09's Predict.theta_predict",
+    "C03_predict_stable_stage": "a whole later stage whose rows are experiments idx of an earlier one (any order / repeats / subset): if the earlier stage can be predicted so can the "
+                                "later (no IndexError appears later) and its prediction is the corresponding entries",
+    "C03_pred_view_is_id_arrays": "pred_view (the screen as the prediction code reads it) is, for every constructed screen of arity 1 or 2, exactly the object whose sample_ids / "
+                                  "treatment_ids arrays are the model screen's s_sids / s_tids under C09's representation map pydata_of",
+    "C03_predict_stable_lifecycle": "the clause for any two stages (either half, any two histories of reveal / mask / unmask / save+load) of one prepared simulation, repaired construction",
+    "C03_predict_stable_of_source": "the same with the TRANSLATED source on both sides: stages made by the translated reveal_plates / mask_screen / unmask_screen, predictions by the "
+                                    "translated predict_* methods of both sample types (C09's py_theta_predict) reading each stage's own id arrays",
+    "C03_predict_stable_refuted_without_mappings": "the construction WITHOUT the mappings (the code before the repair) violates the clause: exists one posterior sample and one experiment "
+                                                   "predicted 22 at the training stage and 11 after one reveal_plates (vm_compute witness)",
+})
+RULE += ("  Big simulations (8 quick / 80 thorough, kind sim): 12-30 plates, 11-30 samples, random unicode names up to 40 characters, up to ~120 rows (thorough ~300), "
+         "histories of 3-12 operations revealing any of the plate ids.")
+RULE += ("  kind prepare, prediction clause (predict_stages): train_model.main() then runs TO THE END on that stage (SparseDrugCombo; for arity 2 also SparseDrugComboInteraction; "
+         "1 chain, burn-in 0, 2 samples), the thetas it wrote are loaded back with ThetaHolder.load_h5, and each posterior sample's predict_viability / predict_conditional_mean / "
+         "predict_conditional_variance is evaluated on the training screen, the test screen, the training screen after a reveal, that screen saved and loaded, the training screen after "
+         "unmask_screen and the test screen after mask_screen: the same experiment (sample name, (treatment name, dose) per column) must get the same float64 bit pattern on every stage, and "
+         "no stage may raise IndexError.")
+EXPLANATION = EXPLANATION.replace("predict_stable is a corollary (embeddings are indexed by these ids, sparse_combo.py:675-713; C09 proves predictions row-wise) and is not stated separately.",
+    "predict_stable IS stated (C03_predict_stable*, Proofs/C03Predict.v: frozen ids composed with C09's Model/Predict.v through pred_view, tied to the id arrays by "
+    "C03_pred_view_is_id_arrays and to the translated predict_* methods by C03_predict_stable_of_source) and observed on the implementation by the predict_stages part of kind prepare "
+    "with thetas really learned by train_model.main.  Not covered: the variational grid model's GridComboSample.predict_* (outside every link).")
+# ---- the hold-out linked at the id / mapping level (gap review g1, C03 gap 2) ----
+THEOREMS.update({
+    "C03_model_is_source_holdout": "the WHOLE function create_plate_balanced_holdout_set_among_masked_plates re-translated on this run with `screen` the model Screen (ids and mappings) "
+                                   "and both Screen(...) calls the model's constructor on the keyword arguments the call sites pass equals Holdout.balanced_holdout_ids = the "
+                                   "selection the loop computes from the recorded rng.choice answers, then holdout_split",
+    "C03_source_holdout_is_split": "whatever the translated hold-out returns is holdout_split of the parent for a selection vector of the screen's length: every theorem about "
+                                   "holdout_split is a theorem about the translated hold-out",
+    "C03_source_holdout_keeps_mappings": "both halves the translated hold-out returns carry the parent's mappings verbatim and number their rows by them",
+    "C03_ids_frozen_of_source_full": "ids_frozen with every step a translated source function: translated hold-out, then any history of the translated reveal_plates / mask_screen / "
+                                     "unmask_screen (and save + load) on either half",
+})
+EXPLANATION += ("  HOLD-OUT LINK: configuration C03_BALANCED_HOLDOUT (harness/src_functions.py -> Generated/SrcHoldoutIds.v) re-translates create_plate_balanced_holdout_set_among_masked_plates "
+                "with the Screen(...) calls as the translator's keyword calls (C12's _SCREEN_CALL), so that both halves receive treatment_mapping=screen.treatment_mapping and "
+                "sample_mapping=screen.sample_mapping is READ FROM THE SOURCE (C11's link of the same function forgets ids).  Trusted there: the loop primitives of C11_BALANCED_HOLDOUT "
+                "read on the rows of the screen, `~v` = map negb, `a[m]` = boolean-mask selection at each array type, np.ones(np.count_nonzero(v)) = repeat true (vcount v), the Screen "
+                "attribute reads of C12.")
 # ---- source-translation links of the command-line wrappers (Model/Cli.v, Generated/SrcCli.v) ----
 THEOREMS.update({
     'C03_model_is_source_cli_prepare_retrospective_simulation': 'the translation of the whole function prepare_retrospective_simulation.main regenerated on this run equals, for every record L of library functions and all parsed arguments, Cli.cli_prepare, which fixes the ORDER: filter, generator from --seed, initial plate (initial generator) or mask_screen, plate generator if any, reveal of a random unobserved plate when there is no initial generator, smoother if any, the hold-out split LAST on the smoothed screen, training and test screens saved; every drawing step receives the generator state its predecessor left',
@@ -185,6 +227,31 @@ def gen(rng, tier):
         test = rng.random() < (0.08 if fraction == 0.0 else 0.4)
         yield dict(kind="sim", parent=parent, fraction=fraction, seed=rng.randrange(10 ** 6), test=test,
                    ops=simlib.gen_ops(rng, with_setobs=False, cli=(rng.random() < 0.5)))
+    # big simulations (gap review g1, item 9): 12-30 plates, 11-30 samples, random unicode names, up to 120 rows (thorough 300), histories of
+    # up to 12 operations revealing any plate ids (ids reach two digits; a sample / treatment confined to one plate)
+    import c01
+    for i in range(8 * N):
+        big = tier != "quick"
+        n_pl = rng.randint(12, 30)
+        pool = lambda k: sorted({c01._rand_name(rng, 40) for _ in range(k * 2)})[:k]      # noqa
+        plates, samples, tnames = pool(n_pl), pool(rng.randint(11, 30)), pool(rng.randint(5, 20))
+        ctrl = rng.choice(sl.CTRLS)
+        arity = rng.choice([1, 2, 2, 3])
+        doses = rng.sample(sl.DOSES, 4) + [0.1 * rng.randint(1, 40) for _ in range(6)]
+        rows = []
+        for j, p in enumerate(plates):
+            observed = (j == 0) or rng.random() < 0.15
+            own_s = samples[j % len(samples)] if rng.random() < 0.5 else None
+            for _ in range(rng.randint(1, 10 if big else 4)):
+                rows.append(dict(s=own_s or rng.choice(samples), p=p, t=[[rng.choice(tnames + [ctrl]), rng.choice(doses)] for _ in range(arity)],
+                                 o=rng.choice([0.25, 0.5, 0.75, 0.125, 1.0, 0.3]), m=observed))
+        rng.shuffle(rows)
+        ops = []
+        for _ in range(rng.randint(3, 12)):
+            u = rng.random()
+            ops.append(["reveal", rng.sample(range(len(plates)), rng.randint(1, 4))] if u < 0.6 else [rng.choice(["mask", "unmask", "saveload"])])
+        yield dict(kind="sim", parent=dict(rows=rows, arity=arity, ctrl=ctrl, obs_given=True, mask_given=True, tmap=None, smap=None),
+                   fraction=rng.choice([0.1, 0.3, 0.5, 1.0]), seed=rng.randrange(10 ** 6), test=rng.random() < 0.3, ops=ops)
     # the prepared simulation as the prepare_retrospective_simulation CLI makes it (generator / smoother / initial plate options)
     import retrolib as L
     R = "batchie.retrospective."
@@ -286,6 +353,8 @@ def _run_prepare(desc):
             if isinstance(rv, ImplError):
                 feats.append("reveal_refused")
             else:
+            rv = common.impl_call(reveal_plates, a, un[:1])      # refuses a plate whose wells are all 0 / hold a NaN (C12)
+            if not isinstance(rv, ImplError):
                 stages.append(("training after reveal", rv))
                 feats.append("reveal_after_prepare")
         pred = None
@@ -320,7 +389,13 @@ def _run_prepare(desc):
                                 which, name, i, mp.get(name), argv[7:])
                 if len(ref[0]) > len(got[0]) or len(ref[1]) > len(got[1]):
                     feats.append("train_stage_ids_not_all_observed")
-        return dict(wire=None, impl=None, pred=pred, features=feats)
+        # the prediction clause itself: posterior samples REALLY learned by train_model.main on that stage predict, bit for bit,
+        # the same number for the same experiment on every other stage of the simulation
+        if pred is None and trainable is not None and desc["screen"]["arity"] <= 2:
+            pred = _predict_stages(desc, trainable, stages, d, feats, argv)
+            if pred is None:
+                pred = _evaluate_cli_stages(desc, tr, d, feats, argv)
+        return dict(wire=None, impl=None, pred=pred, features=sorted(set(feats), key=feats.index))
     finally:
         shutil.rmtree(d, ignore_errors=True)
 
@@ -360,6 +435,167 @@ def _train_stage(screen, d, seed):
     if isinstance(r, ImplError):
         return "[train-stage-failed] train_model.main on a stage of the prepared simulation raised %r" % (r,)
     return (got["s"], got["t"]) if got else None
+
+
+def _exp_keys(s):
+    """which experiment each row of a screen is: (sample name, ((treatment name, dose bits) per column))"""
+    tn, td = np.asarray(s.treatment_names), np.asarray(s.treatment_doses, dtype=np.float64)
+    return [(str(s.sample_names[r]), tuple((str(tn[r, c]), float(td[r, c]).hex()) for c in range(tn.shape[1]))) for r in range(s.size)]
+
+
+_PREDICT = ("predict_viability", "predict_conditional_mean", "predict_conditional_variance")
+
+
+def _learn(screen, d, seed, model, tag):
+    """batchie.cli.train_model.main() run to the END in-process on `screen` (one chain, burn-in 0, 2 samples, thin 1); the
+    thetas it wrote, loaded back with ThetaHolder.load_h5 (as every later pipeline step does); None when main refused"""
+    from batchie.cli import train_model
+    from batchie.core import ThetaHolder
+    path, out = os.path.join(d, "learn_%s.h5" % tag), os.path.join(d, "thetas_%s.h5" % tag)
+    screen.save_h5(path)
+    argv = ["train_model", "--model", model, "--model-param", "n_embedding_dimensions=2", "--n-burnin", "0", "--n-samples", "2",
+            "--thin", "1", "--n-chains", "1", "--chain-index", "0", "--seed", str(seed), "--data", path, "--output", out]
+    with np.errstate(all="ignore"):
+        r = common.impl_call(lambda: common.run_cli_main(train_model, argv))
+    if isinstance(r, ImplError) or not os.path.exists(out):
+        return None
+    h = ThetaHolder.load_h5(out)
+    _learn.last_output = out
+    return [h.get_theta(i) for i in range(h.n_thetas)]
+
+
+def _bits(x):
+    return [int(b) for b in np.ascontiguousarray(np.asarray(x, dtype=np.float64)).reshape(-1).view(np.int64)]
+
+
+def _evaluate_cli_stages(desc, tr_path, d, feats, argv):
+    """the prediction clause through the command line only (gap review g1 / seeded C03-m10):
+         train_model.main on the training screen prepare wrote (stage 1, usually one plate observed)  -> thetas
+         evaluate_model.main --screen stage 1 --thetas thetas                                        -> evaluation 1
+         reveal_plate.main (every still unobserved plate) on stage 1                                  -> stage 2
+         evaluate_model.main --screen stage 2 --thetas thetas                                         -> evaluation 2
+    An evaluation row is recognised as a row of the screen it was given by (sample name, observation bits) when that pair is
+    unique in the screen (ModelEvaluation stores exactly these two per row); the experiment is that row's (sample name,
+    (treatment, dose) per column, plate name).  [evaluate-differs-across-stages]: one experiment, one posterior sample, two
+    evaluations, two predictions.  [evaluate-predicts-other-ids]: an evaluation's prediction differs from theta.predict_viability
+    on the ids the evaluated screen itself carries."""
+    from batchie.cli import evaluate_model, reveal_plate
+    from batchie.data import Screen
+    from batchie.models.main import ModelEvaluation
+    s1 = Screen.load_h5(tr_path)
+    if s1.size == 0 or not bool(np.any(s1.observation_mask)):
+        return None
+    thetas = _learn(s1, d, desc["seed"], "SparseDrugCombo", "cli")
+    if thetas is None:
+        feats.append("learn_refused_cli")
+        return None
+    th_path = _learn.last_output
+    un = [int(x) for x in np.unique(s1.plate_ids[~s1.observation_mask])]
+    st2 = os.path.join(d, "stage2.h5")
+    files = [("stage 1 (training screen as prepared)", tr_path)]
+    if un:
+        r = common.impl_call(lambda: common.run_cli_main(reveal_plate, ["reveal_plate", "--screen", tr_path, "--output", st2, "--plate-id"] + [str(i) for i in un]))
+        if not isinstance(r, ImplError) and os.path.exists(st2):
+            files.append(("stage 2 (after reveal_plate of plates %r)" % (un,), st2))
+    evals = []
+    for k, (nm, path) in enumerate(files):
+        out = os.path.join(d, "evaluation%d.h5" % k)
+        with np.errstate(all="ignore"):
+            r = common.impl_call(lambda: common.run_cli_main(evaluate_model, ["evaluate_model", "--screen", path, "--thetas", th_path, "--output", out]))
+        if isinstance(r, ImplError) or not os.path.exists(out):
+            if "IndexError" in repr(r):
+                return "[predict-raises-on-later-stage] evaluate_model.main raises %r on %s with thetas learned by train_model.main on stage 1 (argv %r)" % (r, nm, argv[7:])
+            feats.append("evaluate_refused")
+            continue
+        S = Screen.load_h5(path)
+        me = ModelEvaluation.load_h5(out)
+        P = np.asarray(me.predictions, dtype=np.float64)
+        if P.ndim != 2 or P.shape[1] != len(thetas):
+            return "[predict-shape] evaluate_model.main on %s stores predictions of shape %r for %d posterior samples" % (nm, P.shape, len(thetas))
+        obits, keys, plates = _bits(S.observations), _exp_keys(S), [str(x) for x in S.plate_names]
+        where = {}
+        for r_, (sn, ob) in enumerate(zip(S.sample_names, obits)):
+            where.setdefault((str(sn), ob), []).append(r_)
+        with np.errstate(all="ignore"):
+            own = [np.asarray(th.predict_viability(S), dtype=np.float64) for th in thetas]
+        rows = {}
+        for k_, (sn, ob) in enumerate(zip(me.sample_names, _bits(me.observations))):
+            hit = where.get((str(sn), ob), [])
+            if len(hit) != 1:
+                continue
+            r_ = hit[0]
+            rows[(keys[r_], plates[r_], ob)] = (k_, r_)
+            for ti in range(len(thetas)):
+                if _bits(P[k_, ti]) != _bits(own[ti][r_]):
+                    return ("[evaluate-predicts-other-ids] evaluate_model.main on %s reports %r for posterior sample %d and experiment (sample %r, treatments %r, plate %r); "
+                            "theta.predict_viability on the ids that screen carries gives %r (argv %r)" % (
+                                nm, float(P[k_, ti]), ti, keys[r_][0], [(a, float.fromhex(b)) for a, b in keys[r_][1]], plates[r_], float(own[ti][r_]), argv[7:]))
+        evals.append((nm, P, rows))
+    if len(evals) == 2:
+        feats.append("evaluate_cli_two_stages")
+        (n1, P1, R1), (n2, P2, R2) = evals
+        both = [k for k in R1 if k in R2]
+        if both:
+            feats.append("evaluate_cli_same_experiment_on_two_stages")
+        for k in both:
+            for ti in range(len(thetas)):
+                if _bits(P1[R1[k][0], ti]) != _bits(P2[R2[k][0], ti]):
+                    return ("[evaluate-differs-across-stages] evaluate_model.main with one ThetaHolder (learned by train_model.main on stage 1) reports %r for posterior sample %d and "
+                            "experiment (sample %r, treatments %r, plate %r) on %s and %r for the same experiment on %s (argv %r)" % (
+                                float(P1[R1[k][0], ti]), ti, k[0][0], [(a, float.fromhex(b)) for a, b in k[0][1]], k[1], n1, float(P2[R2[k][0], ti]), n2, argv[7:]))
+    elif evals:
+        feats.append("evaluate_cli_one_stage")
+    return None
+
+
+def _predict_stages(desc, trainable, stages, d, feats, argv):
+    """[predict-differs-across-stages] / [predict-raises-on-later-stage] or None.  Stages: the training and the test screen
+    the CLI wrote, the training screen after a reveal, that screen after save + load, the training screen after
+    unmask_screen, the test screen after mask_screen - every one a screen 'derived from one prepared simulation'"""
+    from batchie.data import Screen
+    from batchie.retrospective import mask_screen, unmask_screen
+    models = ["SparseDrugCombo"] + (["SparseDrugComboInteraction"] if desc["screen"]["arity"] == 2 else [])
+    later = list(stages)
+    last = stages[-1][1]
+    path = os.path.join(d, "later.h5")
+    last.save_h5(path)
+    later.append((stages[-1][0] + ", saved and loaded", Screen.load_h5(path)))
+    for nm, f, src in (("training after unmask_screen", unmask_screen, stages[0][1]), ("test after mask_screen", mask_screen, stages[1][1])):
+        if src.size > 0:
+            r = common.impl_call(f, src)
+            if not isinstance(r, ImplError):
+                later.append((nm, r))
+    later = [(n, s, _exp_keys(s)) for n, s in later if s.size > 0]
+    for model in models:
+        thetas = _learn(trainable, d, desc["seed"], model, model)
+        if thetas is None:
+            feats.append("learn_refused_" + model)
+            continue
+        feats.append("predict_stages_" + model)
+        for ti, th in enumerate(thetas):
+            for meth in _PREDICT:
+                seen = {}
+                for n, s, keys in later:
+                    with np.errstate(all="ignore"):
+                        v = common.impl_call(lambda: np.asarray(getattr(th, meth)(s), dtype=np.float64))
+                    if isinstance(v, ImplError):
+                        if "IndexError" in repr(v):
+                            return ("[predict-raises-on-later-stage] %s of posterior sample %d (%s, learned by train_model.main) raises %r on the %s screen: "
+                                    "an id of that stage lies outside the embeddings sized by the stage it was learned on (argv %r)" % (meth, ti, model, v, n, argv[7:]))
+                        feats.append("predict_refused_%s_%s" % (model, meth))      # KeyError of the interaction model's single-effect lookup etc.: C09's subject
+                        continue
+                    if v.shape != (s.size,):
+                        return "[predict-shape] %s on the %s screen returns shape %r for %d experiments" % (meth, n, v.shape, s.size)
+                    bits = v.view(np.int64)
+                    for r, k in enumerate(keys):
+                        if k in seen and seen[k][0] != int(bits[r]):
+                            return ("[predict-differs-across-stages] %s of posterior sample %d (%s, learned by train_model.main on the %s stage) gives %r for experiment "
+                                    "(sample %r, treatments %r) on the %s screen and %r for the same experiment on the %s screen (argv %r)" % (
+                                        meth, ti, model, "trainable", float(v[r]), k[0], [(a, float.fromhex(b)) for a, b in k[1]], n, seen[k][1], seen[k][2], argv[7:]))
+                        seen.setdefault(k, (int(bits[r]), float(v[r]), n))
+                if len(later) > 1 and len({k for _, _, ks in later for k in ks}) < sum(len(ks) for _, _, ks in later):
+                    feats.append("same_experiment_on_two_stages")
+    return None
 
 
 def run(desc):
